@@ -289,6 +289,10 @@ def run_shard(shard):
         C4 = B.AdditiveCondition(lambda c: c.sum(), (3,), (4,))
         key = jr.PRNGKey(0)
         bad = {
+            "Chain(cond mismatch around an unconditional member)": lambda: B.Chain([C2, A3, C4]),
+            "Chain(cond mismatch, unconditional first)": lambda: B.Chain([A3, C2, A3, A3, C4]),
+            "Concatenate(cond mismatch around an unconditional member)": lambda: B.Concatenate([C2, A3, C4]),
+            "Stack(cond mismatch around an unconditional member)": lambda: B.Stack([C2, A3, C4]),
             "Chain(shape mismatch)": lambda: B.Chain([A3, A2]), "Chain(scalar vs vector)": lambda: B.Chain([B.Affine(), A3]),
             "Chain((1,3) vs (3,))": lambda: B.Chain([B.Affine(jnp.zeros((1, 3))), A3]), "Chain(cond mismatch)": lambda: B.Chain([C2, C4]),
             "Concatenate(other axis mismatch)": lambda: B.Concatenate([A23, A32], axis=0), "Concatenate(rank mismatch)": lambda: B.Concatenate([A3, A23], axis=0),
@@ -311,6 +315,13 @@ def run_shard(shard):
             "TriangularAffine(non-square)": lambda: B.TriangularAffine(jnp.zeros(2), jnp.ones((2, 3))),
             "TriangularAffine(loc wrong length)": lambda: B.TriangularAffine(jnp.zeros(2), jnp.eye(3)),
         }
+        # a wrong-shaped condition produced *inside* a composite (the embedding network's output) must be rejected as well
+        inner = B.Chain([A3, B.AdditiveCondition(lambda c: c.sum() * jnp.ones(3), (3,), (2,))])
+        for enm, net in {"scalar": lambda c: jnp.sum(c), "size-1": lambda c: jnp.sum(c)[None], "extra leading axis": lambda c: jnp.ones((4, 2)) * c[0],
+                         "transposed-rank": lambda c: jnp.ones((2, 1)) * c[0], "too long": lambda c: jnp.ones(3) * c[0]}.items():
+            emb = B.EmbedCondition(inner, net, (5,))
+            for m in METHODS:
+                bad[f"EmbedCondition(embedding returns {enm} instead of (2,)).{m}"] = (lambda emb=emb, m=m: getattr(emb, m)(jnp.ones(3), jnp.ones(5)))
         for nm, fn in bad.items():
             rec.evals += 1
             cases.add(("ctor", nm))
